@@ -209,10 +209,14 @@ class Command:
                                 target.write(", ")
                         target.write(")")
                     else:
+                        # remove (only) the enclosing quotes, if any: the
+                        # value may itself end with an escaped quote
+                        items = [
+                            v[1:-1] if len(v) > 1 and v[0] == v[-1] == '"' else v
+                            for v in value
+                        ]
                         target.write(
-                            "[{}]".format(
-                                ", ".join(['"%s"' % v.strip('"') for v in value])
-                            )
+                            "[{}]".format(", ".join(['"%s"' % v for v in items]))
                         )
                     continue
                 if isinstance(value, Command):
